@@ -12,11 +12,12 @@ import (
 
 // killAtCommit arms the store's verif hook: the process kills itself right
 // after its n-th committed store transaction (n counted from now).
+var commitCount int
+
 func killAtCommit(n int) {
-	count := 0
 	badger.VerifAfterCommit = func() {
-		count++
-		if count == n {
+		commitCount++
+		if commitCount == n {
 			syscall.Kill(os.Getpid(), syscall.SIGKILL)
 			time.Sleep(time.Hour)
 		}
